@@ -70,7 +70,7 @@ func genHistory(t *rapid.T) history {
 			s.Arg = rapid.IntRange(0, 30).Draw(t, "which")
 		case 8:
 			s.Op = "burst"
-			s.Arg = rapid.IntRange(2, 8).Draw(t, "burst")
+			s.Arg = rapid.SampledFrom([]int{2, 3, 4, 6, 8, 12, 16}).Draw(t, "burst")
 		default:
 			s.Op = "probe"
 		}
